@@ -92,7 +92,7 @@ def model_check(name, progs, observed, fuel=FUEL, shard=150):
     shards = [ids[i:i + shard] for i in range(0, len(ids), shard)]
     def one(k):
         sh = shards[k]
-        v = ["From Coq Require Import ZArith List.", "From FV Require Import Core.Syntax Core.Sem Core.Typing.",
+        v = ["From Coq Require Import String ZArith List.", "From FV Require Import Core.Syntax Core.Sem Core.Typing.",
              "Import ListNotations.",
              "Definition structs : structs_t := %s." % core.structs_coq(),
              "Definition verdict (p : prog) (obs : list line) : Z :=",
@@ -124,7 +124,7 @@ def model_check(name, progs, observed, fuel=FUEL, shard=150):
 
 def model_output(name, prog, fuel=FUEL):
     """Ask the model what a single program prints (text of the Coq term) — for replays."""
-    v = ["From Coq Require Import ZArith List.", "From FV Require Import Core.Syntax Core.Sem Core.Typing.",
+    v = ["From Coq Require Import String ZArith List.", "From FV Require Import Core.Syntax Core.Sem Core.Typing.",
          "Import ListNotations.", "Definition structs : structs_t := %s." % core.structs_coq(),
          "Definition p : prog := %s." % core.to_coq(prog),
          "Eval vm_compute in (check_prog structs p, run structs p %d)." % fuel]
